@@ -7,7 +7,7 @@ func init() {
 		"C03": {"'never indefinitely delays' as liveness", "bounded hold time of writeMu when a handler blocks in Send (argued, not proved)", "unmarshalable frames on the carrier"},
 		"C04": {"that blocked operations do return (they become enabled; fairness not modelled)", "that the carrier reports its own failure", "handler cooperation after its context is cancelled"},
 		"C05": {"deadlock freedom of a whole tunnel under bounded transport buffering (needs a carrier model and fairness)", "the interleaving invariant I2 is proved over an action schema whose shared accesses, successor relation and guards are checked against the SSA / proved by the executor; the effect of each access kind on (window, tokens) is the schema (trusted encoding of sync/atomic and channel semantics)", "the liveness reading (a waiting sender does resume) needs fairness"},
-		"C06": {"process heap growth", "a partially reassembled message the application is actively reading"},
+		"C06": {"process heap growth", "a partially reassembled message the application is actively reading", "which status the overrunning peer finally receives: the receive loop finishes the stream with ResourceExhausted (proved), but it cancels the handler's context first, and a handler that returns at once may win the race for writeMu and have its own Canceled status sent instead (observed on the real code by a seeded-change author; a race between two finishStream calls that no per-function contract decides; DESIGN section 12, 'observed but not claimed')"},
 		"C07": {"'once the tunnel has delivered the notice' (carrier)", "'without waiting' beyond the nosend/nowait effects"},
 		"C08": {"wire order between different goroutines' frames other than new_stream (which is sent under the creation lock)", "that the server's user handler terminates"},
 		"C09": {"'hung' (liveness)", "messages built in-process by hostile Go code that violate protobuf well-formedness (set oneof members / map values non-nil)"},
